@@ -467,8 +467,10 @@ def _chunk(arg: tuple) -> tuple[int, list]:
         _HOSTS = find_hosts()
     out = []
     steps = 0
-    for s in items:
+    from checks import store_replay
+    for bk, s in enumerate(items):
         beh = json.loads(s)
+        store_replay.set_load_factor(store_replay.rot(bk + len(s)))      # block sizes and shapes under the edited document
         try:
             fnd, st = replay(_HOSTS, beh, set(check))
         except Exception as e:  # noqa: BLE001
@@ -484,6 +486,7 @@ def _chunk(arg: tuple) -> tuple[int, list]:
         steps += st
         for fp, kind, msg in fnd:
             out.append((fp, kind, msg, beh))
+    store_replay.set_load_factor(1000)
     return steps, out
 
 
